@@ -112,7 +112,7 @@ def cox_de_boor(dom_field, tsym, tw, s, x, order):
 
 class Table1D:
     """sets up the interpreter's globals for a 1-D table of the shape with symbolic knots"""
-    def __init__(self, prog, params, dom, shape, xw):
+    def __init__(self, prog, params, dom, shape, xw, xname="x"):
         self.it = G.Interp(prog, dom); self.it.prog_params = params
         it = self.it; sh = shape; k, n = sh.k, sh.n
         base = [it.fsym(p, Fraction(977 + 13 * i, 7) * (-1) ** i) for i, p in enumerate(sh.pads_lo)] + \
@@ -125,9 +125,23 @@ class Table1D:
         it.set_global("nknots", G.Ptr(it.array("nknots", [n]), 0))
         it.set_global("naxes", G.Ptr(it.array("naxes", [n - k - 1]), 0))
         it.set_global("knots", G.Ptr(it.array("knots", [self.kptr]), 0))
-        self.x = it.fsym("x", xw)
+        self.x = it.fsym(xname, xw)
     def lookup(self):
         it = self.it
         xo = it.array("x", [self.x]); co = it.array("centers", [None])
         ok = it.call("searchcenters", [G.Ptr(xo, 0), G.Ptr(co, 0)])
         return bool(ok), co.cells[0]
+
+def x_symbol_for(shape, cell):
+    """open cell: x is a free symbol; knot cell: x IS the knot (its symbol), so that the obligation
+    compares values at the point, not polynomial pieces as functions"""
+    kind, m = cell
+    return "x" if kind == "open" else shape.tnames[m]
+
+def subs_x(dom, elem, xname, target):
+    """elem with generator xname replaced by generator target (field element)"""
+    if xname == target: return elem
+    xg = dom.symbol(xname).numer; tg = dom.symbol(target).numer
+    num = elem.numer.compose(xg, tg); den = elem.denom.compose(xg, tg)
+    if den == 0: raise G.ExecError("specification undefined at the knot (0 denominator)")
+    return dom.K(num) / dom.K(den)
